@@ -33,6 +33,8 @@ type store struct {
 	// would restart from if it stopped right after that write.
 	snap    map[string][]byte
 	snapSeq int
+	// puts lists the key of every applied Put, in order (which call wrote which record)
+	puts []string
 }
 
 func newStore() *store {
@@ -80,6 +82,7 @@ func (s *store) Put(ctx context.Context, key ds.Key, value []byte) error {
 	}
 	s.shadow[key.String()] = append([]byte(nil), value...)
 	s.writes++
+	s.puts = append(s.puts, key.String())
 	s.snap, s.snapSeq = copyMap(s.shadow), s.writes
 	return nil
 }
@@ -186,6 +189,8 @@ func TestRuleHistories(t *testing.T) {
 			reopenNE bool
 			failedOK int
 			kinds    = map[string]bool{}
+			owner    = map[string]op{} // datastore key -> the successful Block* call that wrote the record
+			rf       []readFaultOutcome
 		)
 		failProb := rapid.SampledFrom([]int{0, 10, 10, 30}).Draw(rt, "failProb")
 		if !useDS {
@@ -197,7 +202,28 @@ func TestRuleHistories(t *testing.T) {
 			if o.fail {
 				failedOK++
 			}
+			np := 0
+			if st != nil {
+				np = len(st.puts)
+			}
 			runOp(rt, g, st, w, m, o, &ob, &hist, true)
+			if st != nil && strings.HasSuffix(last(hist), "-> ok") {
+				for _, k := range st.puts[np:] {
+					owner[k] = o
+				}
+			}
+		}
+		// restart while a read of the datastore goes wrong: the constructor fails, or the gater enforces
+		// every block that returned success (the live gater is kept: the application retries later)
+		reopenFaulty := func(rt *rapid.T) {
+			if st == nil {
+				return
+			}
+			plan := drawReadPlan(rt, st)
+			hist = append(hist, "reopen while "+plan.String())
+			out := reopenWithReadFault(rt, st, plan, owner, w, m)
+			out.nonEmpty = !m.empty()
+			rf = append(rf, out)
 		}
 		reopen := func(rt *rapid.T) {
 			if st == nil {
@@ -223,10 +249,11 @@ func TestRuleHistories(t *testing.T) {
 			}
 		}()
 		rt.Repeat(map[string]func(*rapid.T){
-			"op":     step,
-			"op2":    step,
-			"op3":    step,
-			"reopen": reopen,
+			"op":                step,
+			"op2":               step,
+			"op3":               step,
+			"reopen":            reopen,
+			"reopen-read-fault": reopenFaulty,
 			"": func(rt *rapid.T) {
 				what := "live gater"
 				if len(hist) > 0 && hist[len(hist)-1] == "reopen" {
@@ -239,6 +266,8 @@ func TestRuleHistories(t *testing.T) {
 		if st != nil {
 			reopen(rt)
 			checkGater(rt, "gater reopened on the final datastore (end of history)", g, w, m, m, &ob)
+			// ... and with a restart during which a read fails
+			reopenFaulty(rt)
 		}
 
 		nontrivial := ob.noncanonBlocked || ob.edgeBlocked || reopenNE
@@ -255,6 +284,27 @@ func TestRuleHistories(t *testing.T) {
 		}
 		for k := range kinds {
 			labels = append(labels, "op:"+k)
+		}
+		rfl := map[string]bool{}
+		for _, o := range rf {
+			k := "read-fault:" + readFaultNames[o.plan.kind]
+			switch {
+			case !o.fired:
+				rfl[k+"/not-reached"] = true
+			case o.refused:
+				rfl[k+"/reopen-refused"] = true
+			default:
+				rfl[k+"/gater-came-up"] = true
+			}
+			if o.fired && o.nonEmpty {
+				rfl["read-fault-delivered-on-nonempty-rules"] = true
+			}
+			if !o.refused && o.blockedChecks > 0 {
+				rfl["read-fault-reopen-came-up:blocks-checked"] = true
+			}
+		}
+		for k := range rfl {
+			labels = append(labels, k)
 		}
 		for k := range ob.scribbles {
 			labels = append(labels, k)
